@@ -398,16 +398,15 @@ func headerCombos(cfg Cfg) [][]int {
 	return combos
 }
 
-// forEachReqFeat enumerates the full request feature product of a configuration.
+// forEachReqFeat enumerates the full request feature product of a configuration (the peer
+// and the body kind are crossed in by the caller).
 func forEachReqFeat(cfg Cfg, pv []pathVar, combos [][]int, f func(reqFeat)) {
 	for m := range methods {
 		for p := range pv {
 			for ua := 0; ua < uaCount; ua++ {
 				for xff := 0; xff < 2; xff++ {
-					for peer := 0; peer < len(peers); peer++ {
-						for _, hc := range combos {
-							f(reqFeat{M: m, P: p, UA: ua, XFF: xff, Peer: peer, H: hc})
-						}
+					for _, hc := range combos {
+						f(reqFeat{M: m, P: p, UA: ua, XFF: xff, H: hc})
 					}
 				}
 			}
@@ -416,5 +415,5 @@ func forEachReqFeat(cfg Cfg, pv []pathVar, combos [][]int, f func(reqFeat)) {
 }
 
 func productSize(cfg Cfg) int {
-	return len(methods) * len(pathVariants(cfg)) * uaCount * 2 * len(peers) * len(headerCombos(cfg))
+	return len(methods) * len(pathVariants(cfg)) * uaCount * 2 * len(headerCombos(cfg))
 }
